@@ -17,6 +17,24 @@ CLAIMED = {
         note=("Trusts the quiescence barrier (kernel queues empty on both ends, two idle passes) to make one chunk = one "
               "read; streams <= ~450 bytes; 4+-way splits only byte-wise; whitespace pings not compared."),
         design_ref="§3 C03"),
+    "C13": dict(
+        category="exploration",
+        technique="exhaustive enumeration of all operation sequences up to length L over the task/promise API against a reference model",
+        text=("All sequences (length <= 7 quick, <= 9 thorough) over copy/obtain/then(3 kinds)/finish/destroy-context/drop operations "
+              "are executed on fresh real QXmppPromise/QXmppTask objects for four result types; invocation count, value and "
+              "instance-counter balance are compared with a reference model after every sequence, under ASan/UBSan. The "
+              "orderings are the quantifier of the property and are enumerated completely within the bound."),
+        note="At most 2 promise and 2 task copies; one then() per shared state; single-threaded; user-made cycles excluded from the leak oracle.",
+        design_ref="§3 C13"),
+    "C14": dict(
+        category="exploration",
+        technique="exhaustive enumeration of attribute combinations, key lengths and single-fault corruptions of encoded messages, independent HMAC/CRC oracle",
+        text=("Round trip over all single attributes, all cross-group pairs and all-set variants; MESSAGE-INTEGRITY and FINGERPRINT "
+              "recomputed independently (Qt MAC + bitwise CRC, cross-checked with Python) for every key length up to 100/300; "
+              "every single-bit flip, truncation, byte substitution and every value of each 16-bit type/length field of "
+              "authenticated messages must be rejected under the key; all decodes run under ASan/UBSan."),
+        note="Value alphabets are finite samples of each lexical class; multi-fault corruptions are not enumerated; HMAC collisions ignored.",
+        design_ref="§3 C14"),
 }
 
 PENDING_REASON = "check not built yet in this revision (see DESIGN.md §7 for the order of work); not claimed"
